@@ -14,13 +14,16 @@ def snap(v, d):
     return float(f"{v:.{d}f}") + 0.0 if math.isfinite(v) else v
 
 
-def height(rnd, d):
+def height(rnd, d, free=False):
+    """free: any height in (0,1], including values next to 1 (the FLL round-trip checks keep away from 1 +- atol)"""
+    if free and rnd.random() < 0.2:
+        return rnd.choice([0.9995, 0.99999, 0.999, 0.9985, 1e-3, 0.5000001])
     h = snap(rnd.choice([1.0, 1.0, 1.0, 0.5, 0.25, rnd.uniform(0.05, 0.95)]), d)
     # away from 0 and from 1 +- atol (heights "close to 1" are exported as 1)
     return h if (0.0 < h <= 1.0 and (h == 1.0 or abs(h - 1.0) > 0.0015)) else 1.0
 
 
-def shape_term(rnd, name, lo, hi, kinds=None, d=3, kind=None, degenerate=True):
+def shape_term(rnd, name, lo, hi, kinds=None, d=3, kind=None, degenerate=True, free_height=False):
     """spec = dict(cls, name, params, height); every parameter is a Python float on the d-decimals grid"""
     w = hi - lo
     unit = 10.0**-d
@@ -42,7 +45,7 @@ def shape_term(rnd, name, lo, hi, kinds=None, d=3, kind=None, degenerate=True):
         return v if v != 0 else 1.0
 
     k = kind or rnd.choice(kinds or SHAPES)
-    h = height(rnd, d)
+    h = height(rnd, d, free=free_height)
     if k in ("Arc", "Concave", "Ramp", "SemiEllipse"):
         p = list(two())
     elif k in ("Rectangle", "SShape", "ZShape"):
